@@ -156,7 +156,16 @@ func (s *sess) call(op Op) (res opResult, pv any) {
 					// the same roots in another order: resumption accepts them, the file keeps its own order
 					roots = append(roots[1:len(roots):len(roots)], roots[0])
 				}
-				ns, res.err = OpenStoreRoots(s.env, s.t.Cfg, roots)
+				cfg := s.m.Cfg
+				if op.Arg == 2 {
+					// the next instance is given a tighter index CID limit than the file was written under:
+					// what is in the file stays there, only new puts are judged by the new limit
+					cfg.MaxIdxCid = 40
+				}
+				ns, res.err = OpenStoreRoots(s.env, cfg, roots)
+				if res.err == nil {
+					s.m.Cfg = cfg
+				}
 				sim.CurrentFS = s.env.FS
 				if res.err == nil {
 					s.store = ns
